@@ -38,6 +38,7 @@ func worldWorkConn(w *World) {
 	slack := 2 * time.Second
 
 	c := env.newClient("", pool)
+	c.KeepTransport = true // this world watches what the server does with connections the client leaves open
 	c.WorkMode = w.KnobPick("work_mode", wmGood, wmGood, wmGood, wmLate, wmNever, wmDead)
 	c.LateBy = time.Duration(w.KnobPick("late_ms", 100, 1000, 2500, 6000)) * time.Millisecond
 	// the pre-requested connections are always supplied properly; the mode applies to later requests
